@@ -4,7 +4,7 @@ use crate::{
     schema::base::Schema,
     storage::{
         BtreeMetadata, BtreeOps, Identifiable,
-        cell::OwnedCell,
+        cell::{CELL_HEADER_SIZE, OwnedCell},
         page::{BtreePage, OverflowPage},
         tuple::{Row, Tuple, TupleError, TupleReader, TupleRef},
     },
@@ -26,6 +26,7 @@ use std::{
     fmt::{Display, Formatter, Result as FmtResult, Write},
     fs,
     io::{self, Error as IoError, ErrorKind},
+    mem,
     path::Path,
     usize,
 };
@@ -772,7 +773,7 @@ where
         };
 
         // Check the current page status and call balance if required.
-        self.balance(page_id)?;
+        self.balance(page_id, schema)?;
         Ok(())
     }
 
@@ -801,7 +802,7 @@ where
         // Deallocate the cell
         deallocator.deallocate_cell(old_cell)?;
 
-        self.balance(page_id)?;
+        self.balance(page_id, schema)?;
 
         Ok(())
     }
@@ -888,7 +889,7 @@ where
                 let deallocator = CellDeallocator::new(self.pager.clone());
                 deallocator.deallocate_cell(cell)?;
 
-                self.balance(page_id)?;
+                self.balance(page_id, schema)?;
 
                 Ok(())
             }
@@ -921,7 +922,7 @@ where
                 let deallocator = CellDeallocator::new(self.pager.clone());
                 deallocator.deallocate_cell(cell)?;
 
-                self.balance(page_id)?;
+                self.balance(page_id, schema)?;
 
                 Ok(())
             }
@@ -929,6 +930,48 @@ where
 
         // Cleanup traversal here.
         self.accessor_mut()?.clear();
+        Ok(())
+    }
+
+    /// Builds the divider that an interior page keeps for a leaf cell.
+    ///
+    /// A divider only routes searches, so it carries the part of the tuple the comparator looks at and nothing
+    /// else: the tuple header, the null bitmap and the key columns. It is a fresh cell with storage of its own: when
+    /// even that prefix does not fit the budget of an interior cell, the rest goes to an overflow chain that belongs
+    /// to the divider alone (see [`Self::drop_divider`]). It never shares pages with the leaf cell it was made from,
+    /// so the leaf cell can be updated or removed, and its chain freed, while the divider lives on.
+    fn make_divider(&mut self, leaf_cell: &OwnedCell, schema: &Schema) -> BtreeResult<OwnedCell> {
+        let mut reassembler = Reassembler::new(self.pager.clone());
+        reassembler.reassemble(leaf_cell.as_cell_ref())?;
+        let payload = reassembler.into_boxed_slice();
+
+        // Same walk as [`CellComparator::compare_keys`]: the keys start right after the header and the bitmap.
+        let mut key_end = Tuple::keys_offset(schema.num_values());
+        for key_col in schema.iter_keys() {
+            let (_, next) = key_col
+                .datatype()
+                .deserialize(&payload, key_end)
+                .map_err(|e| IoError::new(ErrorKind::InvalidData, e.to_string()))?;
+            key_end = next;
+        }
+
+        // Interior cells stay small whatever the rows and keys look like. One redistribution of leaves takes the
+        // dividers of up to `2 * siblings + 1` pages out of the parent and puts up to one more back before the parent
+        // itself is rebalanced; the parent only promises the room between its overflow threshold and its physical
+        // end, so that room is shared out among the new dividers. Longer keys continue in the divider's own chain.
+        let page_size = self.pager.write().page_size();
+        let slack = BtreePage::usable_space(page_size)
+            .saturating_sub(BtreePage::overflow_threshold(page_size))
+            .saturating_sub(mem::size_of::<PageId>() + CELL_HEADER_SIZE + mem::size_of::<u16>());
+        let budget = slack / (2 * self.num_siblings_per_side + 2);
+        let builder = CellBuilder::new(budget, self.min_keys, self.pager.clone());
+        let prefix = Tuple::from_slice_unchecked(&payload[..key_end])?;
+        Ok(builder.build_cell(prefix, schema)?)
+    }
+
+    /// Releases a divider that leaves the tree for good, with the overflow chain it owns (if its key was that big).
+    fn drop_divider(&mut self, divider: OwnedCell) -> BtreeResult<()> {
+        CellDeallocator::new(self.pager.clone()).deallocate_cell(divider)?;
         Ok(())
     }
 
@@ -1007,7 +1050,7 @@ where
     /// Balance deeper is the opposite of balance shallower in the sense that it will allocate two new nodes when the root becomes full, increasing the depth of the tree by one.
     /// The cell in the middle gets propagated upwards.
     /// We also need to fix the pointers in the frontiers between the two new nodes to maintain the leaf node's linked list.
-    fn balance_deeper(&mut self) -> BtreeResult<()> {
+    fn balance_deeper(&mut self, schema: &Schema) -> BtreeResult<()> {
         let page_size = self.pager.write().page_size();
         // Allocate new left and right childs
         let new_left = self.pager.write().allocate_page::<BtreePage>()?;
@@ -1030,7 +1073,7 @@ where
         // Choose the appropiate cell to propagate based on the type of page.
         // We need to copy  because we also need to insert it on the new leaves (this is a Bplustree, so the data must reside on the leaf pages.)
         let mut propagated_cell = if was_leaf {
-            right_cells.first().unwrap().clone()
+            self.make_divider(right_cells.first().unwrap(), schema)?
         } else {
             left_cells.last().unwrap().clone()
         };
@@ -1162,7 +1205,7 @@ where
     /// The description of this algorithm can be found on original SQLite docs: https://sqlite.org/btreemodule.html
     /// The main idea is that you have to take as many pages as specified, recompute a balanced distribution, and redistribute the cells accordingly.
     /// Afterwards, propagate the pointers as required.
-    fn balance(&mut self, page_id: PageId) -> BtreeResult<()> {
+    fn balance(&mut self, page_id: PageId, schema: &Schema) -> BtreeResult<()> {
         let is_root = self.is_root(page_id);
         // Read the page size from the pager.
         let page_size = self.pager.write().page_size();
@@ -1180,7 +1223,7 @@ where
 
         // Root overflow.
         if is_root && matches!(status, NodeStatus::Overflow) {
-            return self.balance_deeper();
+            return self.balance_deeper(schema);
         };
 
         // Pop the last visited position from the stack.
@@ -1191,7 +1234,7 @@ where
             .ok_or(BtreeError::TraversalEmpty)?;
 
         // Internal/Leaf node Overflow/Underflow.
-        self.balance_siblings(page_id, &parent_position)?;
+        self.balance_siblings(page_id, &parent_position, schema)?;
 
         // No need to fuck anything else up.
         if matches!(self.check_node_status(page_id)?, NodeStatus::Balanced) {
@@ -1303,11 +1346,16 @@ where
             // This always happens on interior nodes rebalancing, as right_child is not set on leaf nodes.
             if let Some(right_most_child_id) = right_child
                 && next_sibling.is_some()
-                && let Some(mut cell) = removed_entry
             {
-                // Make the cell point to our right child and push it to the chain.
-                cell.set_left_child(Some(right_most_child_id));
-                cells.push_back(cell);
+                if let Some(mut cell) = removed_entry {
+                    // Make the cell point to our right child and push it to the chain.
+                    cell.set_left_child(Some(right_most_child_id));
+                    cells.push_back(cell);
+                }
+            } else if let Some(old_divider) = removed_entry {
+                // Leaf level: the dividers are rebuilt from the redistributed leaves, the old one dies here
+                // together with the overflow chain it may own.
+                self.drop_divider(old_divider)?;
             };
         }
 
@@ -1404,8 +1452,9 @@ where
             // Note that the last node's  next is the right frontier, which gets propagated afterwards.
             if i < siblings.len() - 1 && is_leaf {
                 // Simply create a copy of the next node's front cell, make it point towards ourselves and propagate.
-                let mut divider = cells.front().unwrap().clone();
-                current_iter_page.set_right_child(divider.left_child());
+                let mut divider = self.make_divider(cells.front().unwrap(), schema)?;
+                let current_iter_page = self.get_page_mut(current_iter_id)?;
+                current_iter_page.set_right_child(None);
                 divider.set_left_child(Some(current_iter_id));
                 let parent_page = self.get_page_mut(parent_page_id)?;
                 parent_page.insert(current_iter_slot, divider)?;
@@ -1438,7 +1487,8 @@ where
             let last_sibling_id = last_sibling.entry();
             let last_sibling_slot = last_sibling.slot();
 
-            let mut divider_cell = page.owned_cell(0);
+            let first_of_frontier = page.owned_cell(0);
+            let mut divider_cell = self.make_divider(&first_of_frontier, schema)?;
             divider_cell.set_left_child(Some(last_sibling_id));
             let parent_page = self.get_page_mut(parent_page_id)?;
             parent_page.insert(last_sibling_slot, divider_cell)?;
@@ -1466,7 +1516,7 @@ where
         };
 
         // Done, propagate upwards.
-        self.balance(parent_page_id)?;
+        self.balance(parent_page_id, schema)?;
 
         Ok(())
     }
@@ -1568,6 +1618,7 @@ where
         target_slot: usize,
         separator_slot: usize,
         direction: BorrowDirection,
+        schema: &Schema,
     ) -> BtreeResult<()> {
         // Size occupied by the cell that would go to the target node.
         let cell_size = self
@@ -1597,24 +1648,27 @@ where
         // Haha, but now our parent might have fucked up.
         // We need to unfuck him.
         // In order to unfuck the parent, we replace the entry that pointed to left with the right node's first key
-        let divider = match direction {
-            BorrowDirection::RightToLeft => {
-                let mut separator = self.get_page_mut(source_page_id)?.owned_cell(0);
-                separator.set_left_child(Some(target_page_id));
-                separator
-            }
-            BorrowDirection::LeftToRight => {
-                let mut separator = self.get_page_mut(target_page_id)?.owned_cell(0);
-                separator.set_left_child(Some(source_page_id));
-                separator
-            }
+        let (first_cell, left_child) = match direction {
+            BorrowDirection::RightToLeft => (
+                self.get_page_mut(source_page_id)?.owned_cell(0),
+                target_page_id,
+            ),
+            BorrowDirection::LeftToRight => (
+                self.get_page_mut(target_page_id)?.owned_cell(0),
+                source_page_id,
+            ),
         };
 
-        let parent_page = self.get_page_mut(parent_id)?;
-        if parent_page.num_slots() == separator_slot {
-            parent_page.set_right_child(divider.left_child());
+        if self.get_page_mut(parent_id)?.num_slots() == separator_slot {
+            self.get_page_mut(parent_id)?
+                .set_right_child(Some(left_child));
         } else {
-            parent_page.replace(separator_slot, divider)?;
+            let mut divider = self.make_divider(&first_cell, schema)?;
+            divider.set_left_child(Some(left_child));
+            let old_divider = self
+                .get_page_mut(parent_id)?
+                .replace(separator_slot, divider)?;
+            self.drop_divider(old_divider)?;
         };
 
         Ok(())
@@ -1626,6 +1680,7 @@ where
         &mut self,
         page_id: PageId,
         parent_pos: &BtreePagePosition,
+        schema: &Schema,
     ) -> BtreeResult<()> {
         let is_leaf = self.get_page_mut(page_id)?.is_leaf();
 
@@ -1663,6 +1718,7 @@ where
                         target_slot,
                         separator_slot,
                         BorrowDirection::RightToLeft,
+                        schema,
                     )?;
                 };
 
@@ -1685,6 +1741,7 @@ where
                         0,
                         separator_slot,
                         BorrowDirection::LeftToRight,
+                        schema,
                     )?;
                 };
                 Ok(())
@@ -1709,6 +1766,7 @@ where
                         target_slot,
                         separator_slot,
                         BorrowDirection::RightToLeft,
+                        schema,
                     )?;
                 };
 
@@ -1731,6 +1789,7 @@ where
                         0,
                         separator_slot,
                         BorrowDirection::LeftToRight,
+                        schema,
                     )?;
                 };
 
